@@ -3,7 +3,7 @@
    No Extract Constant directive is used. *)
 From Coq Require Import ExtrOcamlBasic.
 From Coq Require Import ZArith NArith List.
-From V Require Import Model.Quorum Model.Median Model.ZMap Model.HgImpl Model.Store Model.NodeModel Model.HgSpec Model.Gate Model.Proxy Model.FastSync Model.Wire Model.Hostile.
+From V Require Import Model.Quorum Model.Median Model.ZMap Model.HgImpl Model.Store Model.NodeModel Model.HgSpec Model.Gate Model.Proxy Model.FastSync Model.Wire Model.Hostile Model.Recovery.
 Extraction Language OCaml.
 Set Extraction KeepSingleton.
 Separate Extraction Z.add Z.mul Z.div Z.modulo Z.opp Z.sub Z.of_nat Z.to_nat Z.of_N Z.to_N Z.eqb Z.ltb Z.leb
@@ -25,4 +25,5 @@ Separate Extraction Z.add Z.mul Z.div Z.modulo Z.opp Z.sub Z.of_nat Z.to_nat Z.o
   Hostile.itx_verify Hostile.event_verify Hostile.block_verify Hostile.parent_at Hostile.pub_key_bytes
   Hostile.peer_id Hostile.new_peer_set Hostile.get_signatures Hostile.set_signature Hostile.fe_less
   Hostile.collect_roots Hostile.process_sigpool Hostile.ff_check Hostile.sync_request Hostile.join_request
-  Hostile.eager_sync Hostile.quote_str.
+  Hostile.eager_sync Hostile.quote_str
+  Recovery.db_of_log Recovery.bootstrap Recovery.head_seq Recovery.node_log.
